@@ -175,6 +175,25 @@ def run(facts, rep, tier):
                 rep.ob("C08.D1", "rename-hole-is-raw:%s#%d" % (h["fn"], n_r), okp, "rename = #%s: %s" % (name, why) if okp else "rename = #%s is not the raw JSON name" % name, n.get("sp"))
     rep.floor("C08.D1", "rename templates", n_r, 4)
 
+    check_distinct(facts, rep, "C08.D2")
+
+    # ------------------------------------------------------------ D3
+    gtn = [x for x in c.user_fns() if x["fn"].endswith("util::get_type_name")]
+    look = [(h, n) for h in c.user_fns() for n, _ in nodes(h["body"], "mcall") if n["name"] == "get" and src(n["recv"]).endswith("settings.replace")]
+    if gtn and look:
+        h, n = look[0]
+        key = src(n["args"][0]).lstrip("&")
+        lets = {x["pat"]["name"]: src(x["init"]) for x, _ in nodes(h["body"], "let") if x["pat"].get("k") == "bind" and x.get("init") is not None}
+        a = re.search(r"sanitize\(&?\w+, (Case::\w+)\)", src(gtn[0]["body"]))
+        b = re.search(r"sanitize\(&?\w+, (Case::\w+)\)", lets.get(key, ""))
+        ok = bool(a and b) and a.group(1) == b.group(1)
+        rep.ob("C08.D3", "replacement-key-and-type-names-agree", ok, "both use sanitize(.., %s)" % (a.group(1) if a else "?") if ok else "replacement lookup uses `%s`, type naming `%s`" % (lets.get(key), a.group(0) if a else "?"))
+
+
+def check_distinct(facts, rep, RULE):
+    """Sanitised names are checked for distinctness before they are committed (shared by C01.D1 and C08.D2)."""
+    c = facts.impl
+    em = [h for h in c.user_fns() if h["fn"].endswith("TypeEntryEnum::from_metadata")]
     # ------------------------------------------------------------ D2 distinctness before commit
     if em:
         h = em[0]
@@ -188,12 +207,12 @@ def run(facts, rep, tier):
                 checks.append((i, st))
         ok = ctor_ix is not None and len(checks) >= 2 and all(i < ctor_ix for i, _ in checks)
         last_div = bool(checks) and any(x.get("k") == "macro" and x["name"] == "panic" for x, _ in walk(checks[-1][1]["then"]))
-        rep.ob("C08.D2", "variants-distinct-before-commit", ok and last_div, "variants_unique is tested twice before the enum is built; the second failure aborts" if ok and last_div else "variant identifiers are not checked for distinctness before the enum is built", h.get("sp"))
+        rep.ob(RULE, "variants-distinct-before-commit", ok and last_div, "variants_unique is tested twice before the enum is built; the second failure aborts" if ok and last_div else "variant identifiers are not checked for distinctness before the enum is built", h.get("sp"))
         vu = [x for x in c.user_fns() if x["fn"].endswith("variants_unique")]
         if vu:
-            rep.ob("C08.D2", "variants-unique-compares-idents", "variant.ident_name.as_ref().unwrap()" in src(vu[0]["body"]) and "unique(" in src(vu[0]["body"]), "uniqueness is over the sanitised identifiers")
+            rep.ob(RULE, "variants-unique-compares-idents", "variant.ident_name.as_ref().unwrap()" in src(vu[0]["body"]) and "unique(" in src(vu[0]["body"]), "uniqueness is over the sanitised identifiers")
     sm = [h for h in c.user_fns() if h["fn"].endswith("TypeSpace::struct_members")]
-    if rep.floor("C08.D2", "struct member converter", len(sm), 1):
+    if rep.floor(RULE, "struct member converter", len(sm), 1):
         h = sm[0]
         found = None
         for n, anc in walk(h["body"]):
@@ -204,7 +223,7 @@ def run(facts, rep, tier):
             cs = src(n["cond"])
             if "properties" in cs and ".name" in cs and outcome(n["then"]) == "ret-err":
                 found = n
-        rep.ob("C08.D2", "properties-distinct-before-commit", found is not None,
+        rep.ob(RULE, "properties-distinct-before-commit", found is not None,
                "colliding property identifiers are rejected: `%s`" % src(found["cond"])[:90] if found else
                "no check that two JSON property names do not sanitise to the same field identifier (e.g. `foo-bar` and `foo_bar`): the struct would have duplicate fields", c.fns[h["fn"]].get("sp"))
     # items of the module: the name index is never overwritten (C16.W3)
@@ -215,17 +234,6 @@ def run(facts, rep, tier):
             if n["name"] == "insert" and src(n["recv"]).endswith(".name_to_id"):
                 n_g += 1
                 g = c16.guard_for_insert(h, n, "name_to_id")
-                rep.ob("C08.D2", "items-distinct-before-commit:%s" % h["fn"], g is not None, g or "a type name is committed without checking that it is not already taken (two items of one name)", n.get("sp"))
-    rep.floor("C08.D2", "name commits", n_g, 2)
+                rep.ob(RULE, "items-distinct-before-commit:%s" % h["fn"], g is not None, g or "a type name is committed without checking that it is not already taken (two items of one name)", n.get("sp"))
+    rep.floor(RULE, "name commits", n_g, 2)
 
-    # ------------------------------------------------------------ D3
-    gtn = [x for x in c.user_fns() if x["fn"].endswith("util::get_type_name")]
-    look = [(h, n) for h in c.user_fns() for n, _ in nodes(h["body"], "mcall") if n["name"] == "get" and src(n["recv"]).endswith("settings.replace")]
-    if gtn and look:
-        h, n = look[0]
-        key = src(n["args"][0]).lstrip("&")
-        lets = {x["pat"]["name"]: src(x["init"]) for x, _ in nodes(h["body"], "let") if x["pat"].get("k") == "bind" and x.get("init") is not None}
-        a = re.search(r"sanitize\(&?\w+, (Case::\w+)\)", src(gtn[0]["body"]))
-        b = re.search(r"sanitize\(&?\w+, (Case::\w+)\)", lets.get(key, ""))
-        ok = bool(a and b) and a.group(1) == b.group(1)
-        rep.ob("C08.D3", "replacement-key-and-type-names-agree", ok, "both use sanitize(.., %s)" % (a.group(1) if a else "?") if ok else "replacement lookup uses `%s`, type naming `%s`" % (lets.get(key), a.group(0) if a else "?"))
